@@ -566,3 +566,35 @@ theorem harvest_relabel (E : Env α) (h : Agree c c' ρ S) (hρ : Function.Injec
     rfl
 
 end
+
+section
+variable {α : Type} [Field α] [LinearOrder α] [IsStrictOrderedRing α] [FloorRing α] [Inhabited α]
+
+/-- a well-shaped tree over columns in `S` meets the requirements of the simulation, sub-nodes included -/
+theorem HGood.of_shape {S : List Nat} {t : Node α} (h : Shape t) (hc : ∀ j ∈ t.data.comb, j ∈ S) : HGood S t := by
+  induction h with
+  | leaf d subs rows hl hC hS ih =>
+    refine HGood.leaf _ _ _ hc (le_of_eq hl.1) ?_
+    intro s hs
+    obtain ⟨k, hk, hks⟩ := List.mem_iff_getElem.mp hs
+    have hk' : subs[k]? = some (some s) := by rw [List.getElem?_eq_getElem hk, hks]
+    refine ih k s hk' ?_
+    obtain ⟨_, hcs, _⟩ := hC k s hk'
+    intro j hj
+    rw [hcs] at hj
+    exact hc j (List.mem_of_mem_eraseIdx hj)
+  | branch d subs ch hl hC hS hkeys hchild hCh ih1 ih2 =>
+    refine HGood.branch _ _ _ hc (le_of_eq hl.1) ?_ ?_
+    · intro s hs
+      obtain ⟨k, hk, hks⟩ := List.mem_iff_getElem.mp hs
+      have hk' : subs[k]? = some (some s) := by rw [List.getElem?_eq_getElem hk, hks]
+      refine ih1 k s hk' ?_
+      obtain ⟨_, hcs, _⟩ := hC k s hk'
+      intro j hj
+      rw [hcs] at hj
+      exact hc j (List.mem_of_mem_eraseIdx hj)
+    · intro p hp
+      refine ih2 p hp ?_
+      rw [(hchild p hp).1]; exact hc
+
+end
